@@ -18,6 +18,63 @@ def run(rep, prog, tier):
     r3(rep, prog)
     r4(rep, prog)
     r5(rep, prog)
+    r6(rep, prog)
+
+
+def r6(rep, prog):
+    """a decoded length prefix decides exactly how much is read"""
+    import re
+    R = "C09-R6"
+    rep.rule(R, "length prefixes are honoured: in the codecs of stored values (common::serialize, common::vint, schema::document::de) a length decoded by VInt::val that sizes a read — the limit of Read::take, the size of a buffer handed to Read::read_exact / read, the end of the `0..n` loop over the elements, the length kept by an array / object access — reaches that use through casts only, never through min / max / clamp / saturating arithmetic (only the capacity hint of with_capacity may be capped): a capped read returns a truncated value and leaves the reader in the middle of the payload, so every later value of the document is decoded from the wrong bytes")
+    CLAMP = re.compile(r"(::cmp::(min|max|Ord::min|Ord::max|Ord::clamp|min_by|max_by)$|::(saturating_sub|saturating_add|saturating_mul|wrapping_sub|wrapping_add|clamp|min|max)$)")
+    VAL = re.compile(r"tantivy_common::vint::(VInt::val|read_u32_vint|read_u32_vint_no_advance)$|VInt::deserialize_u64$")
+    TAKE = re.compile(r"std::io::Read::take$")
+    RDX = re.compile(r"std::io::Read::(read_exact|read)$")
+    FROM_ELEM = re.compile(r"alloc::vec::from_elem$|alloc::vec::Vec::<.*>::resize$|alloc::vec::Vec::<.*>::set_len$")
+    n_sinks = 0
+    n_bodies = 0
+    for b in prog.bodies.values():
+        if b.kind in ("const", "static", "promoted") or "::tests::" in b.id or "::test::" in b.id:
+            continue
+        if not b.span.startswith(("common/src/serialize.rs", "common/src/vint.rs", "src/schema/document/de.rs")):
+            continue
+        n_bodies += 1
+        sinks = []  # (block, what, local)
+        for bi, t in b.calls():
+            f = t.get("res") or t.get("f") or ""
+            f2 = t.get("f") or ""
+            if TAKE.search(f) or TAKE.search(f2):
+                l = op_local(t["args"][1])
+                if l is not None:
+                    sinks.append((bi, "the limit of Read::take", l))
+            elif FROM_ELEM.search(f) or FROM_ELEM.search(f2):
+                l = op_local(t["args"][1])
+                if l is not None:
+                    sinks.append((bi, "the size of the buffer (%s)" % short(f2 or f), l))
+        for bi in b.normal_blocks():
+            for st in b.stmts(bi):
+                if st.get("r") == "agg" and str(st.get("adt", "")).endswith("ops::range::Range") and len(st.get("o", [])) == 2:
+                    l = op_local(st["o"][1])
+                    if l is not None:
+                        sinks.append((bi, "the end of a `start..n` range", l))
+                elif st.get("r") == "agg" and st.get("ak") == "adt" and "fields" in st:
+                    for fld, o in zip(st["fields"], st.get("o", [])):
+                        if fld in ("length", "len", "num_items", "num_elements") and op_local(o) is not None:
+                            sinks.append((bi, "the field `%s` of %s" % (fld, short(st.get("adt", "?"))), op_local(o)))
+        for bi, what, l in sinks:
+            lv = provenance(b, l)
+            calls = {x[1] for x in lv if x[0] == "call"}
+            clamps = [c for c in calls if CLAMP.search(c)]
+            through = {x[1] for x in provenance(b, l, extra_transparent=clamps) if x[0] == "call"} if clamps else calls
+            if not any(VAL.search(c) for c in through):
+                continue
+            n_sinks += 1
+            cl = sorted(c for c in calls if CLAMP.search(c))
+            rep.check(not cl, R, "decoded length in %s reaches %s unclamped" % (short(b.id), what), "through casts only",
+                      "`%s` decodes a length prefix and passes it through %s before it becomes %s: the read stops short of the payload that was written (values longer than the cap come back truncated, "
+                      "the bytes left over are parsed as the next value)" % (b.id, [short(c) for c in cl], what), site=site(b, bi))
+    rep.floor(R, "codec bodies scanned", n_bodies, 60)
+    rep.floor(R, "uses of a decoded length that size a read", n_sinks, 4)
 
 
 def r4(rep, prog):
